@@ -5,25 +5,40 @@ from checks.harness import meta
 
 PROPERTY = "C11"
 LEVEL = "other"
-LEAN_MODULES = ["Exetera.Props.C11"]
-BASES = ["c03", "c04", "c08", "c09", "c14", "c16", "c17", "c06", "c05", "c01", "c07"]
+LEAN_MODULES = ["Exetera.Props.C11", "Exetera.Props.C11Ranges"]
+BASES = ["c03", "c04", "c08", "c09", "c14", "c16", "c17", "c06", "c05", "c01", "c07", "c11x"]   # c11x: mode-differential-only cases (floats with NaN, dtype bounds)
 MODES = {"quick": ["jit", "nojit"], "thorough": ["jit", "nojit"], "search": ["jit", "nojit"]}
 MODE_DIFF_IS_VIOLATION = True
 EXHAUSTIVE = {"quick": False, "thorough": False}
 TECHNIQUE = "two-mode differential execution (numba JIT vs USE_NUMBA=false) against a mode-independent Lean model + Lean range lemmas (no fixed-width wrap)"
 LEVEL_TEXT = ("Other: the Lean model is a third, mode-independent semantics; the implementation is run in both modes on the same cases, "
-              "each compared with the model and with each other (values, dtypes, error kinds). Lean range lemmas prove that every value the "
-              "join generators store is a row number or the marker, so int32/int64 wrap-around — the only JIT/interpreter divergence the "
-              "model can express — cannot occur below the documented size limits.")
+              "each compared with the model and with each other (values, dtypes, error kinds). Lean range lemmas prove, from the owning "
+              "properties' functional theorems, that fixed-width wrap-around — the only JIT/interpreter divergence the model can "
+              "express — cannot occur below the documented size limits: every value the join generators store is a row number or the "
+              "marker (left_map_range, right_map_range, left_streamed_fits_int32); every offset ordered_map_valid_indexed_stream "
+              "stores lies between 0 and the destination's byte count and the subscript map[sm]-d_start lies in [0, chunksize) "
+              "(range_safe_map_indexed, range_safe_map_window); every span value is <= the row count, and fits int32 whenever an "
+              "entry point chooses int32 (range_safe_spans, range_safe_spans_int32); the offsets stored by "
+              "apply_filter_to_index_values / apply_indices_to_index_values and by Session.apply_spans_concat are <= the "
+              "destination's byte count (range_safe_filter_indexed, range_safe_index_indexed, range_safe_concat); the journalling "
+              "index maps hold -1 or a row number of their table (range_safe_journal_indices); the offsets of every CSV-imported "
+              "indexed field are <= its byte count, under C05's no-regrowth hypotheses (range_safe_csv_offsets_partial). Each "
+              "lemma ends in FitsInt32/FitsInt64 under 'rows < 2^31' resp. 'rows/bytes < 2^63'.")
 LEVEL_NOTE = ("Not a proof of mode equivalence: numba's type unification, typed lists, optional arguments and bytes comparison are runtime "
-              "behaviour no model of mine exhibits; they are covered by the differential run only (generator quality bounds what it sees).")
+              "behaviour no model of mine exhibits; they are covered by the differential run only (generator quality bounds what it sees). "
+              "The range lemmas speak about STORED values (the observable arrays); intermediate quantities are differences of two stored "
+              "offsets / two row numbers of one window, and buffer positions are bounded by the capacities because every write of the "
+              "models is a checked access — stated in the header of Props/C11Ranges.lean, not as separate theorems. Group-by, sort "
+              "permutations, isin/unique and the numeric transforms have no range lemma (their stored integers are row numbers or "
+              "counts <= the row count by the owners' specs, not restated here).")
 RULE = ("cases of the owning properties' generators (seeded sample per property) executed in both modes; a case counts as non-trivial "
         "by the owning harness's rule; distinct = distinct case dict")
 ASSUMPTIONS = ["the cases exercise the kernels decorated for compilation (each owning harness calls the public entry points)"]
 TRUSTED = ["Lean 4.33 kernel (range lemmas)", "checks/harness/*.py"]
 EXPLANATION = ("JIT-mode and interpreted-mode executions of the same seeded cases are diffed (values, dtypes, lengths, error kinds) and "
-               "both are compared with the Lean model; Lean theorems left_map_range / right_map_range / left_streamed_fits_int32 exclude "
-               "fixed-width wrap in the join maps.")
+               "both are compared with the Lean model; Lean theorems left_map_range / right_map_range / left_streamed_fits_int32 and the "
+               "range_safe_* lemmas of Props/C11Ranges.lean exclude fixed-width wrap in the join maps, the map-valid streams, the span, "
+               "filter/index, concat, journalling and CSV-import kernels.")
 
 
 def gen_cases(tier, rng):
@@ -48,3 +63,20 @@ def check_spec(case, io, mode):
 
 def select_for_mode(case, mode, tier):
     return True
+
+
+# ------------------------------------------------------------------------------------------------------------------
+# worker warm-up: the owning harnesses are imported lazily by `meta.base` — inside the per-case alarm of checks/worker.py.
+# Importing them here (ExeTera, pandas, and the bases' own kernel warm-ups) happens before the alarm is armed: an alarm
+# firing inside an import or a numba compilation leaves the worker process broken for every following case.
+# ------------------------------------------------------------------------------------------------------------------
+import sys  # noqa: E402
+if sys.argv and sys.argv[0].endswith("worker.py"):
+    for _n in meta.available(BASES):
+        try:
+            _b = meta.base(_n)
+            _w = getattr(_b, "warm_up", None)
+            if _w:
+                _w()
+        except Exception:   # noqa
+            pass
